@@ -607,10 +607,50 @@ def unit_rewrites(ud, rel, s, rw):
         # division of eval_i64 (`1.0 / n`) is outlined to a total helper whose body is the original operator
         if stack == 'i64':
             s = rw.regex('T14', s, r'\b1\.0 / (\w+)', r'verif_fdiv(1.0, \1)')
+        if stack == 'complex':
+            s = rw.literal('T3', s, 'use num_complex::Complex;', '')
+        if stack == 'decimal':
+            # T8: associated constants;  T15: `x op= e;` -> `x = x op (e);` (Decimal is Copy; vstd has no *Assign specs)
+            s = rw.literal('T8', s, 'Decimal::ZERO', 'dec_c_zero()')
+            s = rw.literal('T8', s, 'Decimal::MAX', 'dec_c_max()')
+            s = rw.literal('T8', s, 'Decimal::MIN', 'dec_c_min()')
+            s = t15_assign_ops(s, rw)
         # T13: `for x in A..=(E) {` -> `for x in A..((E) + 1) {`  (no iterator spec for RangeInclusive in vstd;
         # equivalent whenever E + 1 does not overflow, which Verus then has to prove)
         s = rw.regex('T13', s, r'for (\w+) in (\w+)\.\.=\((.+?)\) \{', r'for \1 in \2..((\3) + 1) {')
     return s
+
+
+def t15_assign_ops(s, rw):
+    out = []
+    i = 0
+    n = 0
+    for m in re.finditer(r'(?m)^(\s*)(\w+) ([-+*])= ', s):
+        if m.start() < i:
+            continue
+        # the statement ends at the first `;` at bracket depth 0
+        depth = 0
+        end = None
+        for kind, a, b in rsrc.tokens(s, m.end()):
+            if kind != 'c':
+                continue
+            c = s[a]
+            if c in '([{':
+                depth += 1
+            elif c in ')]}':
+                depth -= 1
+            elif c == ';' and depth == 0:
+                end = a
+                break
+        if end is None:
+            continue
+        out.append(s[i:m.start()])
+        out.append('%s%s = %s %s (%s);' % (m.group(1), m.group(2), m.group(2), m.group(3), s[m.end():end]))
+        i = end + 1
+        n += 1
+    out.append(s[i:])
+    rw.count('T15', n)
+    return ''.join(out)
 
 
 def t6_specialise(s, rw):
